@@ -209,4 +209,34 @@ example :
   | [_, _, _, _], he => cases he; decide
   | _ :: _ :: _ :: _ :: _ :: _, he => simp at he
 
+/-! ## removals never ask for a resize (finding F10)
+
+Under concurrency the map can come to rest with `count ≥ size_ctl` (inserts that race with the
+final phase of a resize started by `reserve` / `try_presize` neither join it nor start the next
+one, and `try_presize` does not look at the count when it is done). `removal_never_grows` above is
+about the sequential model, where that state is unreachable; what keeps a removal from growing the
+table in *every* state is that no removing call hands `add_count` a resize hint, and that
+`add_count` without a hint returns before it looks at `size_ctl`. Both facts are regenerated from
+`src/map.rs` on every run (`Gen/Arith.lean`: `addCountCalls`, one row per call of `add_count`:
+enclosing function, sign of the delta as written, "the hint is `None`"). Before the repair of F10
+the row of `compute_if_present` was `("compute_if_present", "neg", false)` and the first theorem
+was false; the scheduled scenario `overdue-then-removing-compute` shows the table growing from 64
+to 128 bins inside `compute_if_present(.., |..| None)` on that code. -/
+section RemovalHints
+open Flurry.Gen
+
+/-- every call of `add_count` whose delta is not a positive literal passes `None` as its hint,
+and `add_count` returns early without a hint -/
+theorem removals_pass_no_hint :
+    (addCountCalls.all fun c => c.2.1 == "pos" || c.2.2) = true ∧ addCountNoHintReturns = true := by decide
+
+/-- not vacuous: the removing paths are in the table, and only `put` passes a hint -/
+theorem removal_calls_present :
+    (addCountCalls.any fun c => c.1 == "compute_if_present" && c.2.1 == "neg") = true ∧
+    (addCountCalls.any fun c => c.1 == "replace_node" && c.2.1 == "neg") = true ∧
+    (addCountCalls.any fun c => c.1 == "clear") = true ∧
+    (addCountCalls.all fun c => c.2.2 || c.1 == "put") = true := by decide
+
+end RemovalHints
+
 end Flurry.C14
